@@ -21,7 +21,7 @@ RULE = ("kind ctor: class in {SO2, SE2, SO3, SE3, UnitQuaternion(3x3/4x4 input),
 ASSUMPTIONS = ["distance = lower bound from the orthogonality residual (|R'R-I|/2.5), determinant sign, exact last-row error, algebra-form residual; a value is required to be rejected above 1.05e-6 and accepted below 2e-15, in between either answer is accepted",
                "an invalid 4x4 array given to UnitQuaternion is also a legal N x 4 array of quaternions: there the oracle is 'raises or holds unit quaternions'"]
 
-CLASSES = ["SO2", "SE2", "SO3", "SE3", "UQ3", "UQ4", "Twist2", "Twist3"]
+CLASSES = ["SO2", "SE2", "SO3", "SE3", "UQ3", "UQ4", "Twist2", "Twist3", "SE3.SO3"]
 DEFECTS = ["none", "noise", "reflect", "swap", "scale", "wholescale", "lastrow", "algebra", "shape", "inplace"]
 CONTAINERS = ["bare", "list1", "tuple1", "valid_bad", "bad_valid", "valid_bad_valid"]
 REJECT = 1.05e-6      # the statement: every array whose distance from the group exceeds 1e-6 is rejected
@@ -31,7 +31,7 @@ ACCEPT = 2e-15       # (distance lower bound, see group_distance) values produce
 def s_ctor():
     return st.fixed_dictionaries({
         "kind": st.just("ctor"), "cls": st.sampled_from(CLASSES), "defect": st.sampled_from(DEFECTS),
-        "container": st.sampled_from(CONTAINERS),
+        "container": st.sampled_from(CONTAINERS), "f32": st.sampled_from([False, False, False, True]),
         "m3": gens.pose3(t_hi=3, lo_exp=-12), "m2": gens.pose2(t_hi=3),
         "mag": st.one_of(gens.logmag(-12, 0), gens.logmag(-9, -3), gens.logmag(-5, 0)),
         "pattern": st.lists(gens.fl(-1, 1), min_size=16, max_size=16),
@@ -51,8 +51,9 @@ def gen_cells(tier):
                 for mag in (3e-6, 1e-4, 0.3):          # 3e-6: just outside the 1e-6 band the statement allows
                     for src in ("ref", "lib"):
                         for i in (range(4) if d in ("lastrow", "reflect", "algebra") else (1,)):
-                            yield {"kind": "ctor", "cls": cls, "defect": d, "container": cont, "m3": m3, "m2": m2, "mag": mag,
-                                   "pattern": pat, "i": i, "j": 2, "src": src}
+                            for f32 in ((False, True) if d in ("noise", "scale", "lastrow", "reflect") and src == "ref" else (False,)):
+                                yield {"kind": "ctor", "cls": cls, "defect": d, "container": cont, "m3": m3, "m2": m2, "mag": mag,
+                                       "pattern": pat, "i": i, "j": 2, "src": src, "f32": f32}
 
 
 def gen_pred_cells(tier):
@@ -63,8 +64,9 @@ def gen_pred_cells(tier):
         for mag in (0.0, 3e-6, 1e-4, 0.3):
             for i in range(4):
                 for src in ("ref", "lib"):
-                    yield {"kind": "pred", "m3": m3, "m2": m2, "mag": mag, "pattern": pat, "defect": d, "i": i, "j": (i + 1) % 4,
-                           "vec": [0.3, -0.2, 0.9, 0.1], "vmag": 1.0 + mag, "src": src}
+                    for f32 in ((False, True) if src == "ref" else (False,)):
+                        yield {"kind": "pred", "m3": m3, "m2": m2, "mag": mag, "pattern": pat, "defect": d, "i": i, "j": (i + 1) % 4,
+                               "vec": [0.3, -0.2, 0.9, 0.1], "vmag": 1.0 + mag, "src": src, "f32": f32}
 
 
 def s_pred():
@@ -76,7 +78,7 @@ def s_pred():
         "i": st.integers(0, 3), "j": st.integers(0, 3),
         "vec": st.lists(st.one_of(gens.fl(-1, 1), st.just(0.0)), min_size=2, max_size=6),
         "vmag": st.one_of(gens.logmag(-6, 6), st.just(1.0)),
-        "src": st.sampled_from(["ref", "lib"]),
+        "src": st.sampled_from(["ref", "lib"]), "f32": st.sampled_from([False, False, False, True]),
     })
 
 
@@ -198,6 +200,21 @@ def check_case(case):
 def _setup(case):
     """-> (constructor, valid element, bad element, d_bad, element judge, applicable)"""
     cn = case["cls"]
+    if cn == "SE3.SO3":
+        # classmethod constructor: an SE3 from a 3x3 rotation array ("however it is supplied")
+        if case["container"] != "bare" or case["defect"] in ("algebra", "lastrow"):
+            return None
+        good = member(case, 3, False)
+        bad, ok = corrupt(good, case, 3, False)
+        if not ok:
+            return None
+
+        def judge4(a):
+            if not isinstance(a, np.ndarray) or a.shape != (4, 4):
+                return "element %r is not a 4x4 array" % (a,)
+            dd = group_distance(np.asarray(a, dtype=float), 3, True)
+            return None if dd <= REJECT else "element at distance %.3g from the group" % dd
+        return L.SE3.SO3, good, bad, group_distance(bad, 3, False) if bad.shape == (3, 3) else float("inf"), judge4, "matrix"
     if cn in ("SO2", "SE2", "SO3", "SE3"):
         dim, se = int(cn[2]), cn[1] == "E"
         cls = getattr(L, cn)
@@ -272,7 +289,14 @@ def _ctor(case):
     if st_ is None:
         return c.out
     cls, good, bad, dbad, judge, kind = st_
-    c.feat(distance=dbad if math.isfinite(dbad) else 1e300, reflection=case["defect"] in ("reflect", "swap"))
+    if case.get("f32") and kind == "matrix" and bad.shape == good.shape and cn != "SE3.SO3":
+        # the same defective array held in single precision: its distance is that of the rounded values
+        bad = bad.astype(np.float32)
+        dim_, se_ = int(cn[2]), cn[1] == "E"
+        dbad = group_distance(bad.astype(np.float64), dim_, se_)
+        if dbad <= REJECT:
+            return c.out            # a valid matrix rounded to float32 is 1e-8 from the group: no statement about it
+    c.feat(distance=dbad if math.isfinite(dbad) else 1e300, reflection=case["defect"] in ("reflect", "swap"), f32=bool(case.get("f32")))
     if cont == "bare":
         arg, nbad, ngood = bad.copy(), 1, 0
     elif cont == "list1":
@@ -348,7 +372,9 @@ def _pred(case):
             M, ok = corrupt(good, dict(case), dim, se)
             if not ok:
                 continue
-            d = group_distance(M, dim, se)
+            if case.get("f32"):
+                M = M.astype(np.float32)
+            d = group_distance(M.astype(np.float64), dim, se)
             names = {(3, False): ["isrot", "isR"], (3, True): ["ishom"], (2, False): ["isrot2", "isR"], (2, True): ["ishom2"]}[(dim, se)]
             for nm in names:
                 f = getattr(b, nm)
